@@ -650,6 +650,11 @@ class Grid(object):
 
         xycoords = np.ascontiguousarray(np.atleast_2d(xycoords),
                                         dtype=np.float64)
+        if xycoords.ndim != 2 or xycoords.shape[1] != 2:
+            errmess = "Expected xycoords with 2 columns, "\
+                      + f"got shape {xycoords.shape}."
+            raise ValueError(errmess)
+
         idxcell = np.zeros(len(xycoords)).astype(np.int64)
 
         ierr = c_hydrodiy_gis.coord2cell(nrows, ncols, xll, yll,
